@@ -238,8 +238,8 @@ func (p *Prog) fieldWrittenOnlyBy(al *ssa.Alloc, idx int, only *ssa.Store) bool 
 	}
 	for _, f := range p.Funcs {
 		for _, a := range p.Accesses(f) {
-			if !a.Write || a.Instr == ssa.Instruction(only) {
-				continue
+			if !a.Write || a.Pointee || a.Instr == ssa.Instruction(only) || freshBase(a) {
+				continue // stores into other freshly allocated objects do not touch this one
 			}
 			if a.Field.Index == idx && a.Field.Type != nil && types.Identical(a.Field.Type, nt) {
 				return false
